@@ -9,7 +9,7 @@ ID = "C01"
 LEVEL = "exploration"
 BUDGET = {"quick": 50, "thorough": 900}
 QUICK_CASES = 1500  # generator items in the quick tier (fixed amount of work; BUDGET is then only a safety cap)
-FLOOR = {"quick": 30000, "thorough": 30000}
+FLOOR = {"quick": 30000, "thorough": 30000}  # conclusive cases below which a run is inconclusive (the thorough tier is time-budgeted: same floor)
 TIMEOUT = 120
 REQUIRED_OBS = ["programs_compared", "tracer_events", "exceptions_agreed", "table_programs"]
 RULE = (
